@@ -462,6 +462,23 @@ func genRound(r *vproto.Rng, par [2]int, kind string, layout int, i int) *rtwire
 			return float64(r.Intn(100)) / d
 		}
 		cx, cy = c, c
+	} else if layout >= 4 {
+		// layout 4/5 "thin": a cluster on the tenths within [-6,6]^2 plus a few objects 1e8 .. 2^40 away along ONE axis, so
+		// that node boxes are elongated by 2^27 and more relative to the query's distance from them: the far-face term
+		// of one axis exceeds 2^53 times the other, and any formula that forms the far-corner sum S first and
+		// subtracts (S - f*f + n*n) loses the small term completely (MINMAXDIST too small by the whole fy^2).
+		far := []float64{1e8, -1e8, 3e9, float64(uint64(1) << 40), -float64(uint64(1) << 33), 2.5e8}
+		near := func() float64 { return float64(r.Range(-60, 60)) / 10 }
+		long := func() float64 {
+			if r.Chance(0.22) {
+				return far[r.Intn(len(far))] + float64(r.Intn(3))
+			}
+			return near()
+		}
+		cx, cy = long, near
+		if layout == 5 {
+			cx, cy = near, long
+		}
 	} else {
 		big := func() float64 { return float64(uint64(1)<<52) + float64(r.Intn(4+2*(i%2))) }
 		small := func() float64 { return float64(r.Range(-40, 40)) / 8 }
@@ -503,7 +520,11 @@ func genRound(r *vproto.Rng, par [2]int, kind string, layout int, i int) *rtwire
 	ask := func(m int) {
 		for c := 0; c < m; c++ {
 			ks := []int{0, 1, 0, 1, 0, 2, 0, 1, 3, 0, len(s.present), 0, 1, len(s.present) + 2}
-			s.ask(cx(), cy(), ks[(c+i)%len(ks)])
+			qx, qy := cx(), cy()
+			if layout >= 4 { // queries stay near the cluster (within a few units of the short side of the thin boxes)
+				qx, qy = float64(r.Range(-80, 80))/10, float64(r.Range(-80, 80))/10
+			}
+			s.ask(qx, qy, ks[(c+i)%len(ks)])
 		}
 	}
 	for id := 0; id < n; id++ {
@@ -1051,6 +1072,15 @@ func gen(seed uint64, tier string) []*rtwire.Hist {
 	for i := 0; i < nhuge; i++ {
 		par := [][2]int{{2, 4}, {2, 3}, {3, 6}, {2, 5}, {4, 8}, {3, 7}}[i%6]
 		hs = append(hs, genHuge(r, par, rtwire.Kinds[(i/6)%3], i))
+	}
+	// last, so that the random streams of the families above stay what they were
+	nthin := 24
+	if tier == "thorough" {
+		nthin = 240
+	}
+	for i := 0; i < nthin; i++ {
+		par := [][2]int{{2, 4}, {2, 3}, {2, 5}, {3, 6}, {4, 8}, {3, 7}}[i%6]
+		hs = append(hs, genRound(r, par, rtwire.Kinds[(i/6)%3], 4+(i/3)%2, i))
 	}
 	return hs
 }
